@@ -132,19 +132,28 @@ def neutral_edit(rng, lib, g):
     return None
 
 
-def class_edit(rng, lib):
-    """adds a defaulted / Meta / generated parameter to a random class (same package name, same xpmids)"""
+def class_edit(rng, lib, prefer=None):
+    """adds a defaulted / Meta / generated parameter to a random class (same package name, same xpmids);
+    `prefer`: class names to choose from when possible (classes used by the graphs of the case)"""
     lib = copy.deepcopy(lib)
     cands = [c for c in lib["classes"] if c["name"].startswith("C")]
+    if prefer:
+        cands = [c for c in cands if c["name"] in prefer] or cands
     c = rng.choice(cands)
     used = set()
     for cc in lib["classes"]:
         used |= {a["name"] for a in cc["args"]}
     name = next(a for a in ["extra", "extra2", "zzz", "aaa0"] if a not in used)
     r = rng.random()
-    if r < 0.4:
-        ty = rng.choice(["int", "str", "float", "bool"])
-        arg = {"name": name, "decl": "param", "ty": ty, "optional": False, "default": cfggen.gen_scalar(rng, ty, lib)}
+    if r < 0.2:
+        # `x: Param[float] = 1`: the default keeps the Python type of the literal, values are normalised to float
+        arg = {"name": name, "decl": "param", "ty": "float", "optional": False, "default": rng.choice([0, 1, 2, 10, -1])}
+    elif r < 0.4:
+        ty = rng.choice(["int", "str", "float", "float", "bool"])
+        default = cfggen.gen_plain_default(rng, ty, lib)
+        if ty == "float" and rng.random() < 0.5:
+            default = rng.choice([0, 1, 2, 10, -1])  # numeric literal of the other Python type (`Param[float] = 1`)
+        arg = {"name": name, "decl": "param", "ty": ty, "optional": False, "default": default}
     elif r < 0.55:
         arg = {"name": name, "decl": "param", "ty": {"list": "int"}, "optional": False, "default": {"l": []}}
     elif r < 0.7:
@@ -305,7 +314,7 @@ def signature_edit(rng, lib, g, node=None, kinds=None):
         vals = values_dict(nd)
         cands = [a for a in args if a["decl"] == "param" and a["ty"] != "path"]
         rng.shuffle(cands)
-        opts = kinds or ["value", "value", "value", "sibling", "pretask", "init", "taskout", "twin"]
+        opts = kinds or ["value", "value", "value", "sibling", "pretask", "init", "taskout", "twin", "pre2init"]
         opts = list(opts)
         rng.shuffle(opts)
         if kinds is None and rng.random() < 0.75:  # prefer edits of parameter values
@@ -349,6 +358,13 @@ def signature_edit(rng, lib, g, node=None, kinds=None):
                 g["nodes"].append({"cls": "LW", "values": [["v", rng.choice([11, 12, 13, 14])]], "meta": None, "pre": [], "init": [], "task": None})
                 nd["pre"] = nd["pre"] + [len(g["nodes"]) - 1]
                 return g, {"node": n, "kind": "pretask-added", "unamb": True, "full_only": True}
+            if o == "pre2init" and nd["pre"]:
+                p = nd["pre"][-1]
+                elsewhere = any(p in x["pre"] for i, x in enumerate(g["nodes"]) if i != n)
+                if not elsewhere and p not in nd["init"]:
+                    nd["pre"] = nd["pre"][:-1]
+                    nd["init"] = nd["init"] + [p]
+                    return g, {"node": n, "kind": "pretask-moved-to-init-tasks", "unamb": True, "full_only": True}
             if o == "init" and len(nd["init"]) >= 2:
                 a, b = nd["init"][0], nd["init"][1]
                 if g["nodes"][a] != g["nodes"][b]:
